@@ -29,6 +29,10 @@ func derivedTargets(s *TS, depth int) []*TS {
 	out := []*TS{tsDyn}
 	leafAlts := []*TS{tsStr, tsNum, tsBool}
 	switch s.K {
+	case 'd':
+		// a dynamically typed source (or member) may be asked to become anything, in
+		// particular types with optional attributes at the top or nested
+		out = append(out, tsStr, tObj(at("a", tsStr)), tObj(ato("a", tsStr)), tObj(at("a", tsStr), ato("zz", tObj(ato("q", tsNum)))), tList(tsStr), tList(tObj(ato("a", tsNum))), tMap(tObj(at("p", tsStr), ato("q", tsBool))))
 	case 'b', 'n', 's':
 		for _, l := range leafAlts {
 			if l.K != s.K {
@@ -117,8 +121,6 @@ func derivedTargets(s *TS, depth int) []*TS {
 		out = append(out, tTuple())
 	case 'C':
 		out = append(out, tsStr)
-	case 'd':
-		out = append(out, tsStr, tList(tsStr), tObj(at("a", tsStr)))
 	}
 	return out
 }
